@@ -1,6 +1,6 @@
 (* Props_C08.v — property C08 (interface error codes). *)
 Require Import Base Syntax Front.
-Require Import spec.Spec_Numbering proofs.NumberingProofs proofs.C07Proofs.
+Require Import spec.Spec_Numbering proofs.NumberingProofs proofs.C07Proofs proofs.C09Proofs.
 Open Scope N_scope.
 
 (* errors of the flattened interface: declaration order, root ancestor first,
@@ -15,6 +15,15 @@ Theorem C08_ancestor_shared : forall st i mi bn bi,
   exists mb, number_top st bi = Ok mb /\ mi_base mi = Some mb.
 Proof. exact ancestor_numbering_shared. Qed.
 Print Assumptions C08_ancestor_shared.
+
+
+(* one number per name: in the flattened interface of an accepted main-file interface no error name
+   occurs twice (a name declared again further down the chain, at any distance, is rejected by the
+   interface verifier), so "the" number of a name is well defined in every derived interface *)
+Theorem C08_names_unique : forall md files mir,
+  front Cli md files = Ok mir -> spec_names_unique (errtable_of_mir mir) = true.
+Proof. intros md files mir H. exact (proj2 (front_cli_tables_names_unique md files mir H)). Qed.
+Print Assumptions C08_names_unique.
 
 Open Scope string_scope.
 Example C08_nonvacuous :
